@@ -7,6 +7,7 @@ void register_c05();
 void register_c07();
 void register_c16();
 void register_c18();
+void register_c20();
 void register_all_properties() {
   static bool done = false;
   if (done) return;
@@ -17,5 +18,6 @@ void register_all_properties() {
   register_c07();
   register_c16();
   register_c18();
+  register_c20();
 }
 }
